@@ -1,6 +1,6 @@
 SPECIFICATION Spec
-CONSTANTS N = 3 MaxCalls = 2
-Menu = {"bytes", "struct"}
+CONSTANTS N = 3 MaxCalls = 1
+Menu = {"json", "marshal", "bytes", "parse", "struct", "recompose", "pure"}
 Copies = {"json", "marshal", "bytes", "parse", "struct"}
 LockedLookup = TRUE PreRegistered = TRUE ExclusivePool = TRUE Gran = "fine"
 INVARIANTS Exclusive BufferIsolation NoUnlockedWriteRead SequentialEquivalence
